@@ -10,6 +10,7 @@ import Proofs.C16.Borromean
 import Proofs.C16.ToyExamples
 import Proofs.E2E.C16Raw
 import Proofs.C16.LG
+import Proofs.C16.SilentPaymentsE2E
 /-!
 # C16 — property theorems only (see DESIGN.md §3 C16).
 
@@ -292,6 +293,31 @@ theorem sp_sender_group_is_chain (H : Bytes → Bytes → Bytes) (secret Bspend 
     ∃ exp, exp.map Prod.fst = xs ∧ exp.length = j ∧ SpChain o H secret Bspend k exp :=
   groupOutputs_chain H secret Bspend j k xs h
 
+/-- **T9 (end to end: what the sender creates for an address, that address's scanner finds).** The sender pays ANY list
+of addresses — several scan keys, repeated addresses, any order: `output_keys` in specification form (`outputKeysWalk`:
+recipient `i` gets `x(B_m + t_k•G)` under its scan key's secret, `k` = number of earlier recipients with that scan key;
+the group-then-reorder form `outputKeys` that mirrors btclib line by line answers the same on every streamed input,
+`sp.output_keys` / `sp.output_keys_walk`, but the two forms are NOT proved equal) — from ANY input set (taproot keys
+negated to even y).  The recipient `(b_scan, B_spend)`, all of whose payments go to its unlabelled address, runs
+`scan_transaction_outputs` on outputs containing the sender's keys (decoys allowed, any order), with the input public
+keys it sees (even-y points for taproot inputs) and no labels.  Then the scan's answer STARTS with exactly this
+recipient's outputs, in address order, each with the tweak `t_k` the sender used: every one is found; with
+`sp_scan_reports_spendable_partial`, `b_spend + t_k` opens it.  Sender's and scanner's secrets are different
+computations (`(h·a)•B_scan` vs `b_scan•(h•A)`): `sp_agreement` + the congruence `SpChain.congr` join them.
+No `lift_x` is involved (`LawfulGroup`: for `Btc.EC.ops`' carrier no `p ≡ 3 mod 4`, no cofactor hypothesis); the
+statement is over a lawful instance — its raw `EC.ops` form (an `OpsHom` transfer of `scanLoop`/`outputKeysWalk`) is
+not written out.  Labelled addresses: not covered (see `sp_scan_reports_spendable_partial`). -/
+theorem sp_end_to_end (L : LawfulGroup o G) (H : Bytes → Bytes → Bytes) (keys : List (Int × Bool))
+    (outpoints : List Bytes) (recips : List (α × α)) (outs : List Bytes)
+    (hsend : outputKeysWalk o H keys outpoints recips = .ok outs)
+    (bScan : Int) (hb : 0 < bScan ∧ bScan < o.n) (Bspend : α)
+    (hrec : ∀ r ∈ recips, o.eq r.1 (o.mul bScan o.gen) = true → r = (o.mul bScan o.gen, Bspend))
+    (txOuts : List Bytes) (hsub : outs.Subperm txOuts) (res : List (Bytes × Int))
+    (hscan : scanTransactionOutputs o H bScan Bspend outpoints (keys.map fun k => spInputPoint o k.1 k.2) txOuts []
+      = .ok res) :
+    ∃ exp, exp <+: res ∧ exp.map Prod.fst = mine o (o.mul bScan o.gen) outs recips :=
+  Btc.C16.sp_end_to_end L H keys outpoints recips outs hsend bScan hb Bspend hrec txOuts hsub res hscan
+
 /-- the chain hypothesis is satisfiable: the empty chain at any `k` -/
 example (H : Bytes → Bytes → Bytes) (secret Bspend : α) : SpChain o H secret Bspend 0 [] := .nil 0
 
@@ -360,31 +386,10 @@ example : ∀ k iv m c, (fun (_ _ : Bytes) (m : Bytes) => (Except.ok (m ++ [0]) 
 example : eMagicSize = 4 ∧ eEphSize = 33 ∧ eMacSize = 32 ∧ eBlockSize = 16
     ∧ Gen.Interactive.ECIES_MAGIC = [66, 73, 69, 49] := by decide
 
-/-! ### the `lift_x`-free theorems above (ECDH, DLEQ, Pedersen, BIP352 input sums) are stated over `LawfulGroup` — every
-law of `Lawful` except the two about `lift_x`, which C01 proves for the carrier with NO `p ≡ 3 (mod 4)`; the `Lawful`
-versions are corollaries (`Lawful.toLawfulGroup`) -/
-
-theorem ecdh_symmetric_lawful (L : Lawful o G) (kdf : Bytes → R Bytes) (a b : Int) :
-    diffieHellman o kdf a (o.mul b o.gen) = diffieHellman o kdf b (o.mul a o.gen) :=
-  ecdh_symmetric L.toLawfulGroup kdf a b
-
-theorem dleq_complete_lawful (L : Lawful o G) (H : Bytes → Bytes → Bytes) (hn : o.n ≤ 256 ^ 32)
-    (hH : ∀ t m, (H t m).length = 32) (a k : Int) (hk0 : 0 < k) (hk1 : k < o.n) (B Gp : α)
-    (hB : L.abs B ≠ 0) (hG : L.abs Gp ≠ 0) (msg : Option Bytes) (m : Bytes) (hm : dleqMsg msg = .ok m) :
-    dleqVerify o H (o.mul a Gp) B (o.mul a B) (dleqProofOf o H a k B Gp m) Gp msg = .ok () :=
-  dleq_complete L.toLawfulGroup H hn hH a k hk0 hk1 B Gp hB hG msg m hm
-
-theorem pedersen_commit_verifies_lawful (L : Lawful o G) (Hp : α) (r v : Int) (C : α)
-    (h : pedersenCommit o Hp r v = .ok C) : pedersenVerify o Hp r v C = true :=
-  pedersen_commit_verifies L.toLawfulGroup Hp r v C h
-
-theorem sp_input_sums_agree_lawful (L : Lawful o G) (keys : List (Int × Bool)) (a : Int)
-    (h : prvKeySum o keys = .ok a) :
-    0 < a ∧ a < o.n ∧
-    ∃ A, pubKeySum o (keys.map fun k => spInputPoint o k.1 k.2) = .ok A ∧ L.abs A = a • L.abs o.gen
-      ∧ L.abs A ≠ 0 :=
-  sp_input_sums_agree L.toLawfulGroup keys a h
-
+/-! ### the `lift_x`-free theorems above (ECDH, DLEQ, Pedersen, BIP352 input sums / agreement / end to end) are stated
+over `LawfulGroup` — every law of `Lawful` except the two about `lift_x`, which C01 proves for the carrier with NO
+`p ≡ 3 (mod 4)`.  Their `Lawful` forms are one-line weakenings through `Lawful.toLawfulGroup` and are NOT counted as
+obligations: they live in `Proofs/C16/LG.lean` (`…_lawful`). -/
 
 end Props.C16
 
@@ -545,7 +550,7 @@ identities above (and the guards that make `x` the FIRST valid candidate) is pro
 exhaustive evaluation; for secp256k1 it rests on the `ell.*` correspondence streams and the
 `ellswift.roundtrip` oracle. The third curve, `y² = x³ + 8` over `F₁₉`, HAS a point of order 2 (`−b` is a cube) and
 btclib's `_constants` accepts such a caller-defined curve: there the inverse used to answer `t = 0`, which the forward
-map reads as 1 (90 of 408 preimages did not map back — found by this check, oracle
+map reads as 1 (90 of 408 preimages did not map back — found by the independent audit (AUDIT.md), reproduced by oracle
 `ellswift.small_curve_roundtrip`); repaired in /repo c67c7290 (`return t or None`), mirrored in the model
 (`tOrNone`), and the round trip now holds on it as well (318 defined triples). -/
 theorem ellswift_roundtrip_small_curves_partial :
